@@ -596,5 +596,5 @@ func runUnit(w *casefile.Writer, r *rng.R, tier string) {
 	unitTok(w, r.Fork(), 150*k)
 	unitIDs(w, r.Fork(), 200*k)
 	unitDocs(w, r.Fork(), 300*k)
-	unitTokTab(w, r.Fork(), 120*k)
+	unitTokTab(w, r.Fork(), 90*k)
 }
